@@ -373,12 +373,42 @@ func checkC04(res *Result) {
 		}
 		ff := computeFacts(fn)
 		cs := findCalls(E, fn, name+"$1")
+		if !p.HasFunc(name + "$1") {
+			// the per-object body stands in the loop itself: its Database/Transport calls represent it
+			cs = perElementSites(E, fn)
+			res.check(len(cs) >= 1, "C04-R6", name, p.pos(fn), "the per-object body (written into the loop) has effects", "no Database/Transport call inside a loop")
+			g := flowOf(fn)
+			seenLoop := map[*ssa.BasicBlock]bool{}
+			for _, c := range cs {
+				hdr := loopHeader(loopBlocks(c.Block()))
+				if hdr == nil || seenLoop[hdr] {
+					continue
+				}
+				seenLoop[hdr] = true
+				tot, why := totalLoop(loopBlocks(c.Block()), failureReturnPred(ff))
+				res.check(tot, "C04-R6", name, p.pos(c), "every object of the activity is processed (loop left early only by failing)", why)
+				okObj := false
+				for _, a := range c.Common().Args {
+					if anyBackward(g, a, func(x ssa.Value) bool { return isCallNamed(x, "GetActivityStreamsObject") }) {
+						okObj = true
+					}
+				}
+				res.check(okObj, "C04-R6", name, p.pos(c), "the elements processed are those of the 'object' property", "no argument of the effect derives from GetActivityStreamsObject()")
+			}
+			continue
+		}
 		res.check(len(cs) == 1, "C04-R6", name, p.pos(fn), "the per-object closure is applied at one site", fmt.Sprintf("%d sites", len(cs)))
 		for _, c := range cs {
 			tot, why := totalLoop(loopBlocks(c.Block()), failureReturnPred(ff))
 			res.check(inLoop(c) && tot, "C04-R6", name, p.pos(c), "every object of the activity is processed (loop left early only by failing)", why)
 			g := flowOf(fn)
-			res.check(anyBackward(g, c.Common().Args[0], func(x ssa.Value) bool { return isCallNamed(x, "GetActivityStreamsObject") }), "C04-R6", name, p.pos(c), "the elements processed are those of the 'object' property", "argument does not derive from GetActivityStreamsObject()")
+			okObj := false
+			for _, a := range c.Common().Args {
+				if anyBackward(g, a, func(x ssa.Value) bool { return isCallNamed(x, "GetActivityStreamsObject") }) {
+					okObj = true
+				}
+			}
+			res.check(okObj, "C04-R6", name, p.pos(c), "the elements processed are those of the 'object' property", "no argument derives from GetActivityStreamsObject()")
 		}
 	}
 	if fn := p.MustFunc(res, "C04-R6", "FederatingWrappedCallbacks.create$1"); fn != nil {
@@ -429,4 +459,17 @@ func checkC04(res *Result) {
 	res.Assumptions = append(res.Assumptions, "value flow is an over-approximation", "CFG paths over-approximate feasible paths", "what Database.Owns answers is the application's")
 	res.Undecided = []string{"that exactly the named objects are stored (value equality)", "contents of the delivered Accept beyond the sources of actor/object/to"}
 	res.Trusted = []string{"go/types, go/ssa, go/ast (x/tools v0.29.0)", "e1_effects.go, e2_facts.go, e4_flow.go, e9_errflow.go"}
+}
+
+// perElementSites: the Database/Transport call sites of fn that lie inside a loop
+// (the per-element body when it is written into the loop rather than kept in a
+// closure).
+func perElementSites(E *Effects, fn *ssa.Function) []ssa.CallInstruction {
+	var out []ssa.CallInstruction
+	for _, ci := range E.byFn[fn] {
+		if ci.Direct&(eDBW|eDBR|eTP) != 0 && inLoop(ci.Instr) {
+			out = append(out, ci.Instr)
+		}
+	}
+	return out
 }
